@@ -19,8 +19,16 @@ def rate_crash(ops, out):
 
 
 def streams(seed, tier):
-    return _hc.build_streams(["hostile", "pair", "tx", "rate"], seed, tier, 1.0)
+    from props import C16
+    # the frame reader is the first thing any datagram from the network reaches: the whole codec stream (round
+    # trips, bit flips, truncated / extended / patched frames with recomputed CRCs, raw bytes) runs here too
+    return _hc.build_streams(["hostile", "pair", "tx", "rate"], seed, tier, 1.0) + C16.streams(seed, tier)
+
+
+CODEC_KINDS = ("rt", "flip", "mutfix", "raw", "readfix", "crcpat")
 
 
 def oracle(name, ops, out):
-    return (rate_crash(ops, out) if name.startswith("rate") else crash_oracle(ops, out))
+    if name.startswith("rate") or _hc.stream_of(name) in CODEC_KINDS:
+        return rate_crash(ops, out) or (("frame reader panicked: %s" % [l for l in out if "PANIC" in l][0]) if any("PANIC" in l for l in out) else None)
+    return crash_oracle(ops, out)
